@@ -411,7 +411,7 @@ pub fn run(ctx: &Ctx) -> RunResult {
         complete,
         cases.len()
     ));
-    let n = ctx.pick(20_000, 400_000);
+    let n = ctx.pick(150_000, 2_000_000);
     rr.absorb(run_prop(ctx, "wire", n, arb_case, |c, st| check_wire(c, st)));
     rr
 }
